@@ -119,7 +119,14 @@ func (s *ftpService) Handle(ctx context.Context, conn net.Conn) error {
 	// event pump of an earlier connection report this connection's commands as its own
 	recv := make(chan string)
 
-	ftpConn := s.server.newConn(conn, s.driver, recv)
+	// every connection gets its own view of the filesystem: the working directory is
+	// per-session state
+	driver := s.driver
+	if fs, ok := driver.(*Fs); ok {
+		driver = fs.clone()
+	}
+
+	ftpConn := s.server.newConn(conn, driver, recv)
 
 	done := make(chan struct{})
 
